@@ -188,6 +188,26 @@ func observe(sp *Spies, f func() (string, error)) (o Obs) {
 	return o
 }
 
+// underScheduler makes the rest of the calling Run function a task of the world's seeded scheduler (see
+// simrt.EnterMain): goroutines the library may start are then interleaved by the seed, not by the machine. Use as
+//
+//	defer underScheduler(w, o)()
+//
+// An aborted round (deadlock among goroutines the library started, step cap) becomes a liveness violation.
+func underScheduler(w *simrt.World, o *Outcome) func() {
+	w.EnterMain()
+	return func() {
+		r := recover()
+		if r != nil && !simrtAbort(r) {
+			w.LeaveMain()
+			panic(r)
+		}
+		if ab := w.LeaveMain(); ab != "" && o.Viol == nil {
+			o.Viol = &Violation{Oracle: "liveness", Sig: ab + " among goroutines started by the library", Detail: "scheduler round aborted: " + ab}
+		}
+	}
+}
+
 func simrtAbort(r interface{}) bool {
 	return strings.Contains(fmt.Sprintf("%T", r), "abortSentinel")
 }
